@@ -236,8 +236,11 @@ func (sw *SessionWindow) Add(data any) {
 			slot:       slot,
 		}
 		sw.sessionMap[key] = s
-	} else if timestamp.After(*s.slot.End) {
-		// The gap to the key's open session exceeds the timeout: that session is
+	} else if !timestamp.Before(*s.slot.End) {
+		// The gap to the key's open session reaches the timeout (ts >= end: the session's interval
+		// [start, end) is half-open and it fires as soon as time/watermark reaches end, so a row at
+		// exactly end must not join it either — or the result depends on whether the expiry ran
+		// before the row arrived). That session is
 		// complete. Park it under a key no group value can produce, so the normal
 		// expiry delivers it once time/watermark passes its end, and start a new
 		// session for this key. Without this the split happened only if the expiry
